@@ -2,6 +2,9 @@ import MimeModel.Model.Detect
 import MimeModel.Gen.Tree
 import MimeModel.Lemmas.JsonForward
 import MimeModel.Lemmas.JsonFuel
+import MimeModel.Lemmas.JsonClean
+import MimeModel.Lemmas.Tree
+import MimeModel.Lemmas.DetectTie
 /-
   C08 — well-formed JSON is recognised, whole or truncated.
 
@@ -243,5 +246,135 @@ theorem strict_accepts (D : Bytes) (v : J.JVal) (lim : Nat)
 /- non-vacuity: a document with every kind of token -/
 example : (J.doc true [0x7B, 0x22, 0x61, 0x22, 0x3A, 0x5B, 0x31, 0x2C, 0x74, 0x72, 0x75, 0x65, 0x5D, 0x7D]).isSome = true := by
   decide
+
+/-! ### from the detector's verdict to `Detect`'s result -/
+section
+open Mime.Tree Mime.JsonClean
+
+theorem walkList_first {α : Type} (acc : α → Bool) (p : Tree α → Bool) : ∀ (cs : List (Tree α)) (c : Tree α),
+    cs.find? p = some c → acc c.info = true →
+    (∃ d ∈ cs.takeWhile (fun x => !p x), acc d.info = true) ∨ walkList acc cs = walk acc c := by
+  intro cs
+  induction cs with
+  | nil => intro c h; simp at h
+  | cons x xs ih =>
+    intro c h hacc
+    simp only [List.find?] at h
+    cases hp : p x with
+    | true =>
+      simp only [hp, Option.some.injEq] at h
+      subst h
+      right
+      simp [walkList, hacc]
+    | false =>
+      simp only [hp] at h
+      by_cases hx : acc x.info = true
+      · left
+        exact ⟨x, by simp [List.takeWhile, hp], hx⟩
+      · have hx' : acc x.info = false := by simpa using hx
+        rcases ih c h hacc with ⟨d, hd, hda⟩ | hw
+        · left
+          exact ⟨d, by simp [List.takeWhile, hp, hd], hda⟩
+        · right
+          simp [walkList, hx', hw]
+
+def isNamed (n : String) (t : Tree Info) : Bool := t.info.name == n
+
+/-- the `text` node of the built-in tree and its `json` child -/
+def textNode : Tree Info := (Gen.builtin.children.find? (isNamed "text")).getD Gen.builtin
+def jsonNode : Tree Info := (textNode.children.find? (isNamed "json")).getD Gen.builtin
+
+theorem text_found : Gen.builtin.children.find? (isNamed "text") = some textNode := by
+  unfold textNode
+  have : (Gen.builtin.children.find? (isNamed "text")).isSome = true := by decide
+  cases h : Gen.builtin.children.find? (isNamed "text") with
+  | none => rw [h] at this; cases this
+  | some c => rfl
+
+theorem json_found : textNode.children.find? (isNamed "json") = some jsonNode := by
+  unfold jsonNode
+  have : (textNode.children.find? (isNamed "json")).isSome = true := by decide
+  cases h : textNode.children.find? (isNamed "json") with
+  | none => rw [h] at this; cases this
+  | some c => rfl
+
+theorem node_dets : textNode.info.det = .custom .text ∧ jsonNode.info.det = .custom .json := by
+  constructor <;> decide
+
+theorem json_priority :
+    (textNode.children.takeWhile (fun x => !isNamed "json" x)).map (·.info.name) =
+      ["html", "svg", "xml", "php", "js", "lua", "perl", "python"] := by decide
+
+theorem accepts_text (ext : Ext) (h : Bytes) (lim : Nat) (i : Info) (hd : i.det = .custom .text) :
+    accepts ext h lim i = Cust.text h := by
+  unfold accepts Cust.detEval
+  rw [hd]
+  simp [Det.evalWith, Cust.custEval, Cust.customModel]
+
+theorem accepts_json (ext : Ext) (h : Bytes) (lim : Nat) (i : Info) (hd : i.det = .custom .json) :
+    accepts ext h lim i = jsonHelper h lim Gen.Json.q_json (tokObject ||| tokArray) := by
+  unfold accepts Cust.detEval
+  rw [hd]
+  simp [Det.evalWith, Cust.custEval, Cust.customModel]
+
+theorem text_of_good (x : Bytes) (h : GoodL x) : Cust.text x = true := by
+  unfold Cust.text
+  split
+  · rfl
+  · have : x.any Cust.binaryByte = false := by
+      rw [List.any_eq_false]
+      intro c hc
+      simp [good_not_binary c (h c hc)]
+    simp [this]
+
+theorem goodL_take (x : Bytes) (h : GoodL x) (k : Nat) : GoodL (x.take k) :=
+  fun c hc => h c (List.mem_of_mem_take hc)
+
+
+/-- **C08 through `Detect`**: for every RFC 8259 object/array document of depth within the cap, every
+    limit past the opening bracket and every behaviour of the unmodelled detectors, the path
+    reported by the walk over the built-in tree passes through `application/json` (so the result
+    is json or one of its sub-types) — unless a format with priority accepts the same header: a
+    child of the root in front of `text/plain`, or one of html, svg, xml, php and the shebang
+    languages in front of json -/
+theorem detect_json (ext : Ext) (D : Bytes) (v : J.JVal) (lim : Nat)
+    (hdoc : J.doc true D = some v) (hdepth : J.depth v ≤ Gen.Json.maxRecursion)
+    (hopen : lim = 0 ∨ D.length - (J.skipWs D).length < lim) :
+    jsonNode.info ∈ (detect ext Gen.builtin D lim).chain ∨
+    (∃ d ∈ Gen.builtin.children.takeWhile (fun x => !isNamed "text" x), accepts ext (header D lim) lim d.info = true) ∨
+    (∃ d ∈ textNode.children.takeWhile (fun x => !isNamed "json" x), accepts ext (header D lim) lim d.info = true) := by
+  have hhdr : header D lim = if lim = 0 then D else D.take lim := rfl
+  have hgood : GoodL (header D lim) := by
+    rw [hhdr]
+    split
+    · exact doc_good D v hdoc
+    · exact goodL_take D (doc_good D v hdoc) lim
+  have hacc_text : accepts ext (header D lim) lim textNode.info = true := by
+    rw [accepts_text ext _ lim _ node_dets.1]; exact text_of_good _ hgood
+  have hacc_json : accepts ext (header D lim) lim jsonNode.info = true := by
+    rw [accepts_json ext _ lim _ node_dets.2, hhdr]
+    exact strict_accepts D v lim hdoc hdepth hopen
+  simp only [detect, List.mem_reverse]
+  generalize accepts ext (header D lim) lim = acc at hacc_text hacc_json ⊢
+  -- root → text
+  have hroot : Gen.builtin = .node Gen.builtin.info Gen.builtin.children := by cases Gen.builtin; rfl
+  have htext : textNode = .node textNode.info textNode.children := by cases textNode; rfl
+  rw [hroot, walk_eq]
+  rcases walkList_first acc (isNamed "text") _ _ text_found hacc_text with h1 | h1
+  · right; left; exact h1
+  · rw [h1, htext, walk_eq]
+    rcases walkList_first acc (isNamed "json") _ _ json_found hacc_json with h2 | h2
+    · right; right; exact h2
+    · left
+      rw [h2]
+      have hw : ∀ t : Tree Info, walk acc t = t.info :: walkList acc t.children := by
+        intro t; cases t; simp [walk, Tree.info, Tree.children]
+      rw [hw jsonNode]
+      simp
+
+end
+
+/-- regenerated tie: `Detect` / `DetectReader` load the limit once, atomically (see Lemmas/DetectTie.lean) -/
+theorem tie_single_limit : Mime.DetectTie.SingleLimit := Mime.DetectTie.single_limit
 
 end Mime.C08
